@@ -27,6 +27,8 @@ Core == { DZero, P(<<1>>, 0), M(<<1>>, 0), P(<<2>>, 0), P(<<3>>, 0), M(<<7>>, 0)
           M(<<9, 2, 2, 3, 3, 7, 2, 0, 3, 6, 8, 5, 4, 7, 7, 5, 8, 0, 8>>, 0),
           P(<<9, 0, 0, 7, 1, 9, 9, 2, 5, 4, 7, 4, 0, 9, 9, 3>>, 0),               \* 2^53 + 1
           P(<<4, 5, 0, 3, 5, 9, 9, 6, 2, 7, 3, 7, 0, 4, 9, 6>>, 0),               \* 2^52
+          P(<<9, 0, 0, 7, 1, 9, 9, 2, 5, 4, 7, 4, 0, 9, 9, 2>>, 0),               \* 2^53
+          M(<<9, 0, 0, 7, 1, 9, 9, 2, 5, 4, 7, 4, 0, 9, 9, 3>>, 0),               \* -(2^53 + 1)
           P(Nines(34), 0), P(Threes(34), 0), P(Count(34), 0), P(<<1>>, 33), P(<<5>>, 33),
           P(Nines(34), 0 - 34), P(Threes(34), 0 - 33), P(<<7>>, 0 - 34) }
 More == { P(Nines(33), 0), M(Nines(34), 0), P(<<1>>, 34), P(<<1>>, 0 - 40), P(<<2, 5>>, 0 - 2), P(Count(34), 0 - 17),
@@ -77,7 +79,11 @@ Check == idx > 0 =>
                    [expr |-> <<97>> \o OpCps(op) \o <<98>>, doc |-> DocAB(x, y), adm |-> adm, carriers |-> <<"int64", "float64">>],
                    [expr |-> <<97>> \o OpCps(op) \o <<98>>, doc |-> DocAB(x, y), adm |-> adm, carriers |-> <<"float64", "uint64">>],
                    [expr |-> <<97>> \o OpCps(op) \o <<98>>, doc |-> DocAB(x, y), adm |-> adm, carriers |-> <<"int64", "decimal">>],
-                   [expr |-> <<97>> \o OpCps(op) \o <<98>>, doc |-> DocAB(x, y), adm |-> adm, carriers |-> <<"float32", "json">>] }
+                   [expr |-> <<97>> \o OpCps(op) \o <<98>>, doc |-> DocAB(x, y), adm |-> adm, carriers |-> <<"float32", "json">>],
+                   [expr |-> <<97>> \o OpCps(op) \o <<98>>, doc |-> DocAB(x, y), adm |-> adm, carriers |-> <<"int64", "int64">>],
+                   [expr |-> <<97>> \o OpCps(op) \o <<98>>, doc |-> DocAB(x, y), adm |-> adm, carriers |-> <<"uint64", "int">>],
+                   [expr |-> <<99,111,110,116,97,105,110,115,40,91,97,93,44,98,41>>, doc |-> DocAB(x, y), adm |-> {BoolV(CmpD(x, y) = 0)}, carriers |-> <<"int64", "float64">>],
+                   [expr |-> <<99,111,110,116,97,105,110,115,40,91,98,93,44,97,41>>, doc |-> DocAB(x, y), adm |-> {BoolV(CmpD(x, y) = 0)}, carriers |-> <<"int64", "uint64">>] }
       sumadm == IF ~IsZero(x) /\ ~IsZero(y) /\ Gap(x, y) > AlignMax THEN {Open} ELSE Round(ExactAdd(x, y))
       fns == { [expr |-> <<115,117,109,40,91>> \o Lit(x) \o <<44>> \o Lit(y) \o <<93,41>>, doc |-> DocAB(x, y), adm |-> sumadm, carriers |-> <<>>],
                [expr |-> <<115,117,109,40,91,97,44,98,93,41>>, doc |-> DocAB(x, y), adm |-> sumadm, carriers |-> <<"decimal", "json">>],
